@@ -270,7 +270,7 @@ RARE_FORMS = [
     "x = a if b else c if d else e\n", "x = not a in b is not c\n", "x = a < b <= c != d is e in f\n", "x = -+~a ** -b\n", "x = a @ b @= c\n" if False else "a @= b @ c\n", "x = await_ + async_\n",
     # statements
     "global a, b\n", "def f():\n    nonlocal_ = 1\n    def g():\n        nonlocal nonlocal_\n", "assert a, 'm'\n", "assert (a, 'm')\n", "raise A from B\n", "raise\n",
-    "import a.b.c as d, e\n", "from . import a\n", "from .. import (a as b, c,)\n", "from ...x.y import *\n", "from a import (b)\n",
+    "import a.b.c as d, e\n", "from . import a\n", "from ...... import a\n", "from . ... import a\n", "from .... import b\n", "from ..x import y\n", "from . . import z\n", "from .....pkg.mod import (n)\n", "from .. import (a as b, c,)\n", "from ...x.y import *\n", "from a import (b)\n",
     "try:\n    pass\nexcept (A, B) as e:\n    pass\nexcept C:\n    pass\nelse:\n    pass\nfinally:\n    pass\n", "try:\n    pass\nexcept* A as e:\n    pass\nexcept* (B, C):\n    pass\n",
     "with (a as b, c as d,):\n    pass\n", "with (a, b):\n    pass\n", "with (a) as b, (c):\n    pass\n", "with a as (b, c), d as [e]:\n    pass\n", "async def f():\n    async with a as b, c:\n        pass\n    async for x in y:\n        pass\n    else:\n        pass\n",
     "while a:\n    break\nelse:\n    continue_ = 1\n", "for a in b:\n    continue\nelse:\n    pass\n", "if a: pass\nelif b: pass\nelse: pass\n", "if a: b; c; d;\n", "x = 1; y = 2;\n",
@@ -287,3 +287,20 @@ RARE_FORMS = [s for s in RARE_FORMS if s]
 for _s in RARE_FORMS:
     _ast_chk.parse(_s)  # a form CPython rejects is a bug in this table
 PY_STMTS = list(PY_STMTS) + [s for s in RARE_FORMS if s not in PY_STMTS]
+
+
+def pattern_spellings():
+    """match-case patterns, legal and illegal (CPython decides): star / double-star captures, wildcards, values."""
+    pats = ["{**_}", "{**rest}", "{**a, **b}", "{**a, 'k': 1}", "{'k': 1, **a}", "{'k': _}", "[*_]", "[*a, *b]", "[*a, b, *c]", "(*_, x)", "*a", "_", "a.b", "a.b()", "a.b(c=1, c=2)",
+            "A(x, y=1)", "A(y=1, x)", "1 | x", "x | 1", "(x | y)", "[x, x]", "{1: x, 1: y}", "None | True", "-1", "+1", "1 + 1", "1 + 1j", "'a' 'b'", "f'a'", "x as y", "x as _", "_ as y", "(1 as x) | (2 as x)", "{x: 1}", "{a.b: 1}"]
+    return [f"match v:\n    case {p}:\n        pass\n" for p in pats]
+
+
+def string_mixes():
+    """every ordered pair (and some triples) of string literal kinds written next to each other"""
+    import itertools
+
+    kinds = ["'a'", "b'b'", "f'{c}'", "u'd'", "rb'e'", "f'g'", "rf'{h}'", "B'i'", "U'j'", "''", "b''"]
+    out = [f"x = {p} {q}\n" for p, q in itertools.product(kinds, repeat=2)]
+    out += [f"x = ({p}\n     {q} {r})\n" for p, q, r in itertools.product(kinds[:5], repeat=3)]
+    return out
